@@ -32,6 +32,10 @@ CHECKS = {
          "The reused instance (9 instance kinds + the pooled package-level functions of oj and sen) is the state machine and API calls are the alphabet (valid documents, documents aborting in every family of modes, failing readers/writers, option and callback variants, Reuse/OnlyOne/Options changes). Every sequence up to the depth bound is executed; the last call's result (value, error text with line:column, bytes written) must equal the result on a fresh instance with the same exported configuration; earlier returned values are re-inspected after every call and input buffers are overwritten after use. A difference is attributed to the private field whose transplant into a fresh instance reproduces it.",
          "Trusted: the call alphabets; exported configuration fields count as arguments; documented reused buffers (MustJSON, MustSEN, sen.Bytes, pretty Encode) and Reuse maps are exempt; sync.Pool is emptied by two GC cycles.",
          "DESIGN.md §3 C07", "core"),
+ "C08": (MC, "stateless schedule enumeration (DFS, iterative preemption bounding) of the real code under a cooperative scheduler hooked into sync.Pool / sync.Mutex via a build overlay; separate free-running -race pass",
+         "For every harness (2 threads x 1-2 calls, 3 threads x 1 call; calls drawn from 7 groups forced to collide on one pool, plan cache or shared jp expression) all schedules with at most P preemptions are executed; scheduling points are Pool.Get/Put, Mutex.Lock/Unlock and the boundary after each call. Every call must return what it returns alone, every returned buffer must still hold its text when the caller looks again after other threads ran, shared expressions / recomposers must be bit-identical afterwards, no deadlock. Data races between scheduling points are left to the race-detector pass over the same call bodies (labelled as such in the evidence).",
+         "Trusted: sync.Pool modelled as LIFO+New; atomicity between scheduling points (complemented by -race pass); harness alphabets; -race pass built with checkptr disabled because ojg's unsafe field arithmetic trips it.",
+         "DESIGN.md §3 C08", "sched"),
  "C09": (MC, "explicit-state BFS for the state set, then exhaustive whitespace-insertion x offending-byte x chunking enumeration per state",
          "For the witness of every reachable product state, every placement of whitespace/newline insertions at inter-token positions, every offending byte the reference rejects (and end of input when incomplete), two tails and every chunking (whole, one chunk, byte-wise, every 2-split, split after each newline) is executed on all strict front-ends and the reported line:column compared with the byte-exact expectation computed from the input.",
          "Trusted: jsonref decides the first offending byte; BOM-less inputs; insertion count bound (1 quick, 2 thorough).",
@@ -66,7 +70,7 @@ def main():
         "setup_cmd": "./setup.sh",
         "hooks": {
             "guard": "verif (Go build tag)",
-            "enable": "go build -tags verif (run.sh does this for every check)",
+            "enable": "go build -tags verif -overlay <generated> (run.sh does this for every check; the overlay only reroutes the sync import of ojg files to a shim that delegates to package sync unless the C08 scheduler is installed)",
             "baseline_off_cmd": "cd /repo && GOFLAGS=-mod=mod GOPROXY=off GOSUMDB=off GOTOOLCHAIN=local go test -json -vet=off -count=1 -timeout 25m ./...",
             "source_commits": hook_commits(),
             "add_only": True,
@@ -74,6 +78,8 @@ def main():
         "engines": [
             {"name": "bytemc", "path": "internal/bytemc", "serves_properties": ["C01", "C03", "C06", "C09"],
              "kind_free_text": "explicit-state BFS over the product of a real byte state machine (driven through its public reader entry point, private state read by reflection) and a reference PDA"},
+            {"name": "sched", "path": "internal/sched", "serves_properties": ["C08"],
+             "kind_free_text": "cooperative scheduler + DFS schedule explorer with preemption bounding; sync.Pool/Mutex of ojg routed through internal/vsyncsrc by go build -overlay (tools/overlay.sh), /repo untouched"},
             {"name": "core", "path": "internal/core", "serves_properties": props,
              "kind_free_text": "sharded worker processes, known-findings matcher, evidence and replay writers"},
         ],
